@@ -200,6 +200,14 @@ def spell_int(rnd, v):
         forms.append("0x%X" % v if rnd.random() < 0.5 else "0x%x" % v)
         if 32 < v < 127 and chr(v) not in "\\'\"":
             forms.append(rnd.choice(["'%s'", '"%s"']) % chr(v))
+        if v == 39:         # the quote characters themselves: in the other kind of quotes, or escaped
+            forms += ['"\'"', "'\\''"]
+        if v == 34:
+            forms += ["'\"'", '"\\""']
+        if v == 92:
+            forms += ["'\\\\'", '"\\\\"']
+        if 0 <= v < 256 and rnd.random() < 0.3:
+            forms.append(rnd.choice(["'\\x%02x'", '"\\x%02X"']) % v)
         names = {9: "tab", 10: "lf", 11: "vt", 12: "ff", 13: "cr"}
         if v in names:
             n = names[v]
@@ -307,6 +315,16 @@ def gen_inputs(tier, rnd):
     for _ in range(1200 if tier == "quick" else 15000):
         items = gen_items(rnd, rnd.randint(1, 6 if rnd.random() < 0.2 else 4))
         yield {"kind": "range", "desc": render(rnd, items, spell_int), "probes": probes_for(items), "den": items}
+    # the quote characters and the backslash as quoted limits (in the other kind of quotes or escaped), in front of
+    # every separator spelling: the ellipsis pre-processing has to know where a quoted text ends
+    for code, forms in ((39, ['"\'"', "'\\''", "'\\x27'"]), (34, ["'\"'", '"\\""', '"\\x22"']), (92, ["'\\\\'", '"\\\\"'])):
+        for form in forms:
+            for sep in SEPS:
+                fam = [(form + sep + "'z'", [[code, 122]]), ("1" + sep + "9, " + form + sep, [[1, 9], [code, None]]), (sep + form, [[None, code]])]
+                if code < 92:
+                    fam.append((form + ", 'a'" + sep + "'z'", [[code, code], [97, 122]]))
+                for desc, items in fam:
+                    yield {"kind": "range", "desc": desc, "probes": probes_for(items), "den": items}
     # malformed stream
     for m in MALFORMED:
         yield {"kind": "range", "desc": m, "probes": [0, 1, 65]}
